@@ -1,7 +1,382 @@
-//! Statement-level program families (loops, closures, recursion, blobs, enums, globals).
+//! Statement-level program families (loops, closures, recursion, blobs, enums, globals):
+//! every sequence of actions over a themed menu, after a fixed prologue.
 
 use crate::ast::*;
+use std::sync::Arc;
 
-pub fn all_programs(_thorough: bool) -> Vec<(String, Program)> {
-    Vec::new()
+fn ext_print() -> Top {
+    Top::External { name: "print".into(), ty: "fn *X -> void".into() }
+}
+fn blob_p() -> Top {
+    Top::Blob { name: "P".into(), fields: vec![("x".into(), Ty::Int), ("y".into(), Ty::Int)] }
+}
+fn enum_e() -> Top {
+    Top::Enum { name: "E".into(), variants: vec![("A".into(), Some(Ty::Int)), ("B".into(), None)] }
+}
+fn raw(s: &str) -> Stmt {
+    Stmt::Raw(s.to_string())
+}
+fn lam(params: Vec<(&str, Option<Ty>)>, ret: RetAnn, body: Vec<Stmt>) -> Expr {
+    lambda(params, ret, body)
+}
+fn pa(p: &str, f: &str) -> Expr {
+    field(var(p), f)
+}
+fn fa(p: &str, f: &str, op: Option<BinOp>, v: Expr) -> Stmt {
+    Stmt::Assign { target: pa(p, f), op, value: v }
+}
+fn n1(e: Expr) -> Expr {
+    bin(BinOp::Sub, e, int(1))
+}
+fn add(a: Expr, b: Expr) -> Expr {
+    bin(BinOp::Add, a, b)
+}
+fn mul(a: Expr, b: Expr) -> Expr {
+    bin(BinOp::Mul, a, b)
+}
+fn if_s(c: Expr, t: Vec<Stmt>) -> Stmt {
+    Stmt::Expr(if_e(c, t, None))
+}
+fn variant_a(e: Expr) -> Expr {
+    Expr::Variant("E".into(), "A".into(), Some(Box::new(e)))
+}
+
+pub struct ActionFamily {
+    pub name: &'static str,
+    pub tops: Vec<Top>,
+    pub prologue: Vec<Stmt>,
+    pub actions: Vec<Vec<Stmt>>,
+    pub epilogue: Vec<Stmt>,
+    pub max_len: usize,
+    /// wrap the sequence: None = statements of start; Some(f) = custom builder
+    pub wrap: Option<fn(Vec<Stmt>) -> Vec<Stmt>>,
+}
+
+impl ActionFamily {
+    pub fn programs(&self, out: &mut Vec<(String, Program)>) {
+        let n = self.actions.len();
+        for len in 1..=self.max_len {
+            let total = n.pow(len as u32);
+            for mut i in 0..total {
+                let mut body = self.prologue.clone();
+                let mut seq = Vec::new();
+                for _ in 0..len {
+                    seq.extend(self.actions[i % n].iter().cloned());
+                    i /= n;
+                }
+                let seq = match self.wrap {
+                    Some(w) => w(seq),
+                    None => seq,
+                };
+                body.extend(seq);
+                body.extend(self.epilogue.iter().cloned());
+                let mut tops = self.tops.clone();
+                tops.push(start_fn(body));
+                out.push((self.name.to_string(), Program { tops }));
+            }
+        }
+    }
+}
+
+fn loops_family(thorough: bool) -> Vec<ActionFamily> {
+    let simple: Vec<Vec<Stmt>> = vec![
+        vec![op_assign("i", BinOp::Add, int(1))],
+        vec![op_assign("n", BinOp::Add, var("i"))],
+        vec![print_of(var("i"))],
+        vec![if_s(bin(BinOp::Eq, var("i"), int(1)), vec![Stmt::Continue])],
+        vec![if_s(bin(BinOp::Eq, var("i"), int(2)), vec![Stmt::Break])],
+        vec![if_s(bin(BinOp::Gt, var("n"), int(2)), vec![Stmt::Ret(None)])],
+        vec![def("j", mul(var("i"), int(2))), print_of(var("j"))],
+        vec![Stmt::Expr(if_e(bin(BinOp::Lt, var("i"), int(2)), vec![print_of(int(7))], Some(vec![print_of(int(8)), Stmt::Break])))],
+        vec![def("m", int(0)), Stmt::Loop(Some(bin(BinOp::Lt, var("m"), int(2))), vec![op_assign("m", BinOp::Add, int(1)), if_s(bin(BinOp::Eq, var("m"), int(1)), vec![Stmt::Continue]), print_of(add(mul(var("i"), int(10)), var("m")))])],
+        vec![def("m", int(0)), Stmt::Loop(None, vec![op_assign("m", BinOp::Add, int(1)), if_s(bin(BinOp::Gt, var("m"), int(1)), vec![Stmt::Break]), op_assign("n", BinOp::Add, int(100))])],
+        vec![cdef("w", lam(vec![], RetAnn::Ty(Ty::Int), vec![Stmt::Expr(mul(var("i"), int(3)))])), print_of(callv("w", vec![]))],
+    ];
+    let mk = |name: &'static str, cond: Option<Expr>, first_inc: bool| ActionFamily {
+        name,
+        tops: vec![ext_print()],
+        prologue: vec![def("i", int(0)), def("n", int(0))],
+        actions: simple.clone(),
+        epilogue: vec![print_of(var("i")), print_of(var("n"))],
+        max_len: if thorough { 4 } else { 3 },
+        wrap: match (cond.is_some(), first_inc) {
+            (true, true) => Some(|mut s| {
+                let mut b = vec![op_assign("i", BinOp::Add, int(1))];
+                b.append(&mut s);
+                vec![Stmt::Loop(Some(bin(BinOp::Lt, var("i"), int(3))), b)]
+            }),
+            (true, false) => Some(|mut s| {
+                s.push(op_assign("i", BinOp::Add, int(1)));
+                vec![Stmt::Loop(Some(bin(BinOp::Lt, var("i"), int(3))), s)]
+            }),
+            (false, _) => Some(|mut s| {
+                let mut b = vec![op_assign("i", BinOp::Add, int(1)), if_s(bin(BinOp::Gt, var("i"), int(3)), vec![Stmt::Break])];
+                b.append(&mut s);
+                vec![Stmt::Loop(None, b)]
+            }),
+        },
+    };
+    vec![mk("loops:cond-inc-first", Some(int(0)), true), mk("loops:cond-inc-last", Some(int(0)), false), mk("loops:uncond", None, true)]
+}
+
+fn closures_family(thorough: bool) -> ActionFamily {
+    // mk :: fn -> fn -> int   (a fresh counter per call)
+    let mk = top_fn(
+        "mk",
+        vec![],
+        RetAnn::Implied,
+        vec![def("cn", int(0)), Stmt::Expr(lam(vec![], RetAnn::Ty(Ty::Int), vec![op_assign("cn", BinOp::Add, int(1)), Stmt::Expr(var("cn"))]))],
+    );
+    // addn :: fn d: int -> fn -> int   (captures its parameter and the global g)
+    let addn = top_fn("addn", vec![("d", Some(Ty::Int))], RetAnn::Implied, vec![Stmt::Expr(lam(vec![], RetAnn::Ty(Ty::Int), vec![Stmt::Expr(add(var("d"), var("g")))]))]);
+    ActionFamily {
+        name: "closures",
+        tops: vec![ext_print(), Top::Def { name: "g".into(), mutable: true, ty: None, value: int(0) }, mk, addn],
+        prologue: vec![
+            def("n", int(0)),
+            cdef("inc", lam(vec![], RetAnn::Void, vec![op_assign("n", BinOp::Add, int(1))])),
+            cdef("get", lam(vec![], RetAnn::Ty(Ty::Int), vec![Stmt::Expr(var("n"))])),
+            cdef("c1", callv("mk", vec![])),
+            cdef("c2", callv("mk", vec![])),
+            def("h", callv("addn", vec![int(5)])),
+        ],
+        actions: vec![
+            vec![Stmt::Expr(callv("inc", vec![]))],
+            vec![print_of(callv("get", vec![]))],
+            vec![assign("n", mul(var("n"), int(2)))],
+            vec![print_of(callv("c1", vec![]))],
+            vec![print_of(callv("c2", vec![]))],
+            vec![print_of(callv("h", vec![]))],
+            vec![op_assign("g", BinOp::Add, int(10))],
+            vec![assign("h", callv("addn", vec![var("n")]))],
+            vec![Stmt::Block(vec![def("n", int(100)), Stmt::Expr(callv("inc", vec![])), print_of(var("n")), print_of(callv("get", vec![]))])],
+            vec![def("k0", int(0)), Stmt::Loop(Some(bin(BinOp::Lt, var("k0"), int(2))), vec![def("v0", mul(var("k0"), int(7))), assign("h", lam(vec![], RetAnn::Ty(Ty::Int), vec![Stmt::Expr(add(var("v0"), var("n")))])), op_assign("k0", BinOp::Add, int(1))])],
+        ],
+        epilogue: vec![print_of(var("n")), print_of(callv("h", vec![]))],
+        max_len: if thorough { 4 } else { 3 },
+        wrap: None,
+    }
+}
+
+fn blobs_family(thorough: bool) -> ActionFamily {
+    let cblob = Top::Blob { name: "C".into(), fields: vec![("n".into(), Ty::Int), ("bump".into(), Ty::Fn(vec![], Box::new(Ty::Void))), ("get".into(), Ty::Fn(vec![], Box::new(Ty::Int))), ("inc".into(), Ty::Fn(vec![], Box::new(Ty::Int)))] };
+    ActionFamily {
+        name: "blobs",
+        tops: vec![ext_print(), blob_p(), cblob],
+        prologue: vec![
+            def("p1", Expr::Blob("P".into(), vec![("x".into(), int(1)), ("y".into(), int(2))])),
+            def("p2", var("p1")),
+            def("p3", Expr::Blob("P".into(), vec![("x".into(), int(1)), ("y".into(), int(2))])),
+            def(
+                "cnt",
+                Expr::Blob(
+                    "C".into(),
+                    vec![
+                        ("n".into(), int(0)),
+                        ("bump".into(), lam(vec![], RetAnn::Void, vec![fa("self", "n", Some(BinOp::Add), int(1))])),
+                        ("get".into(), lam(vec![], RetAnn::Ty(Ty::Int), vec![Stmt::Expr(pa("self", "n"))])),
+                        ("inc".into(), lam(vec![], RetAnn::Ty(Ty::Int), vec![fa("self", "n", Some(BinOp::Add), int(1)), Stmt::Expr(pa("self", "n"))])),
+                    ],
+                ),
+            ),
+            def("c2", var("cnt")),
+        ],
+        actions: vec![
+            vec![fa("p1", "x", None, int(5))],
+            vec![fa("p2", "y", Some(BinOp::Add), int(1))],
+            vec![print_of(add(mul(pa("p1", "x"), int(10)), pa("p1", "y")))],
+            vec![print_of(bin(BinOp::Eq, var("p1"), var("p3")))],
+            vec![print_of(bin(BinOp::Ne, var("p1"), var("p2")))],
+            vec![fa("p3", "x", None, pa("p2", "x"))],
+            vec![assign("p2", Expr::Blob("P".into(), vec![("x".into(), pa("p1", "y")), ("y".into(), pa("p1", "x"))]))],
+            vec![Stmt::Expr(call(pa("cnt", "bump"), vec![]))],
+            vec![print_of(call(pa("c2", "get"), vec![]))],
+            vec![fa("cnt", "n", Some(BinOp::Mul), int(3))],
+            vec![fa("p1", "x", Some(BinOp::Sub), pa("p2", "y"))],
+            vec![print_of(add(mul(pa("cnt", "n"), int(100)), call(pa("cnt", "inc"), vec![])))],
+            vec![print_of(add(mul(call(pa("cnt", "inc"), vec![]), int(100)), pa("c2", "n")))],
+        ],
+        epilogue: vec![print_of(Expr::Tuple(vec![pa("p1", "x"), pa("p1", "y"), pa("p2", "x"), pa("p2", "y"), pa("p3", "x"), pa("cnt", "n")]))],
+        max_len: if thorough { 4 } else { 3 },
+        wrap: None,
+    }
+}
+
+fn enums_family(thorough: bool) -> ActionFamily {
+    let describe = top_fn(
+        "describe",
+        vec![("e", Some(Ty::User("E".into())))],
+        RetAnn::Ty(Ty::Int),
+        vec![Stmt::Expr(Expr::Case(
+            Box::new(var("e")),
+            vec![
+                CaseArm { variant: "A".into(), bind: Some("q".into()), body: vec![Stmt::Expr(add(var("q"), int(100)))] },
+                CaseArm { variant: "B".into(), bind: None, body: vec![Stmt::Expr(int(7))] },
+            ],
+            None,
+        ))],
+    );
+    ActionFamily {
+        name: "enums",
+        tops: vec![ext_print(), enum_e(), describe],
+        prologue: vec![def("e1", variant_a(int(1))), def("e2", Expr::Variant("E".into(), "B".into(), None)), def("n", int(0))],
+        actions: vec![
+            vec![print_of(var("e1"))],
+            vec![print_of(callv("describe", vec![var("e1")]))],
+            vec![print_of(callv("describe", vec![var("e2")]))],
+            vec![assign("e1", variant_a(add(var("n"), int(2))))],
+            vec![assign("e2", var("e1"))],
+            vec![assign("e1", Expr::Variant("E".into(), "B".into(), None))],
+            vec![print_of(bin(BinOp::Eq, var("e1"), var("e2")))],
+            vec![print_of(bin(BinOp::Eq, var("e1"), variant_a(int(1))))],
+            vec![Stmt::Expr(Expr::Case(
+                Box::new(var("e1")),
+                vec![CaseArm { variant: "A".into(), bind: Some("q".into()), body: vec![op_assign("n", BinOp::Add, var("q")), print_of(var("q"))] }],
+                Some(vec![op_assign("n", BinOp::Add, int(50))]),
+            ))],
+            vec![def(
+                "w",
+                Expr::Case(
+                    Box::new(var("e2")),
+                    vec![CaseArm { variant: "A".into(), bind: Some("q".into()), body: vec![Stmt::Expr(lam(vec![], RetAnn::Ty(Ty::Int), vec![Stmt::Expr(mul(var("q"), int(2)))]))] }],
+                    Some(vec![Stmt::Expr(lam(vec![], RetAnn::Ty(Ty::Int), vec![Stmt::Expr(int(0))]))]),
+                ),
+            ), assign("e2", variant_a(int(9))), print_of(callv("w", vec![]))],
+        ],
+        epilogue: vec![print_of(var("e1")), print_of(var("e2")), print_of(var("n"))],
+        max_len: if thorough { 4 } else { 3 },
+        wrap: None,
+    }
+}
+
+fn globals_family(thorough: bool) -> ActionFamily {
+    ActionFamily {
+        name: "globals",
+        tops: vec![
+            ext_print(),
+            Top::Def { name: "g".into(), mutable: true, ty: None, value: int(1) },
+            Top::Def { name: "k".into(), mutable: false, ty: None, value: int(3) },
+            Top::Def { name: "t".into(), mutable: true, ty: None, value: Expr::Tuple(vec![int(1), int(2)]) },
+            top_fn("bump", vec![], RetAnn::Void, vec![op_assign("g", BinOp::Add, var("k"))]),
+            top_fn("setg", vec![("q", Some(Ty::Int))], RetAnn::Ty(Ty::Int), vec![def("old", var("g")), assign("g", var("q")), Stmt::Expr(var("old"))]),
+            top_fn("twice", vec![("f", Some(Ty::Fn(vec![], Box::new(Ty::Void))))], RetAnn::Void, vec![Stmt::Expr(callv("f", vec![])), Stmt::Expr(callv("f", vec![]))]),
+        ],
+        prologue: vec![],
+        actions: vec![
+            vec![Stmt::Expr(callv("bump", vec![]))],
+            vec![print_of(var("g"))],
+            vec![assign("g", mul(var("g"), int(2)))],
+            vec![print_of(callv("setg", vec![int(5)]))],
+            vec![print_of(add(var("g"), callv("setg", vec![int(7)])))],
+            vec![print_of(add(callv("setg", vec![int(8)]), var("g")))],
+            vec![Stmt::Expr(callv("twice", vec![var("bump")]))],
+            vec![Stmt::Block(vec![def("g", int(100)), Stmt::Expr(callv("bump", vec![])), print_of(var("g"))])],
+            vec![op_assign("t", BinOp::Add, Expr::Tuple(vec![var("g"), var("k")])), print_of(var("t"))],
+            vec![op_assign("g", BinOp::Add, callv("setg", vec![int(2)]))],
+        ],
+        epilogue: vec![print_of(var("g")), print_of(var("t"))],
+        max_len: if thorough { 4 } else { 3 },
+        wrap: None,
+    }
+}
+
+/// recursion family: a value held across the recursive call at every expression position
+pub fn recursion_programs(out: &mut Vec<(String, Program)>) {
+    let h = || mul(var("n"), int(10));
+    let r = || callv("rec", vec![n1(var("n"))]);
+    let sum2 = top_fn("sum2", vec![("a", Some(Ty::Int)), ("b", Some(Ty::Int))], RetAnn::Ty(Ty::Int), vec![Stmt::Expr(add(var("a"), var("b")))]);
+    let apply = top_fn("apply", vec![("f", Some(Ty::Fn(vec![Ty::Int], Box::new(Ty::Int)))), ("x", Some(Ty::Int))], RetAnn::Ty(Ty::Int), vec![Stmt::Expr(callv("f", vec![var("x")]))]);
+    let ifv = |c: Expr, a: Expr, b: Expr| if_e(c, vec![Stmt::Expr(a)], Some(vec![Stmt::Expr(b)]));
+    let casev = |sc: Expr, arm: Vec<Stmt>, el: Expr| Expr::Case(Box::new(sc), vec![CaseArm { variant: "A".into(), bind: Some("q".into()), body: arm }], Some(vec![Stmt::Expr(el)]));
+    // (name, body statements after the base case; last is the result expression)
+    let bodies: Vec<(&str, Vec<Stmt>)> = vec![
+        ("held-left", vec![Stmt::Expr(add(h(), r()))]),
+        ("held-right", vec![Stmt::Expr(add(r(), h()))]),
+        ("held-sub", vec![Stmt::Expr(bin(BinOp::Sub, h(), r()))]),
+        ("held-param", vec![Stmt::Expr(add(var("n"), r()))]),
+        ("if-value-left", vec![Stmt::Expr(add(ifv(bin(BinOp::Gt, var("n"), int(1)), h(), int(7)), r()))]),
+        ("if-value-right", vec![Stmt::Expr(add(r(), ifv(bin(BinOp::Gt, var("n"), int(1)), h(), int(7))))]),
+        ("if-cond-calls", vec![Stmt::Expr(ifv(bin(BinOp::Ge, r(), int(0)), add(h(), r()), int(5)))]),
+        ("if-branch-calls", vec![Stmt::Expr(add(h(), ifv(bin(BinOp::Gt, var("n"), int(1)), r(), int(3))))]),
+        ("case-value-left", vec![Stmt::Expr(add(casev(variant_a(var("n")), vec![Stmt::Expr(mul(var("q"), int(10)))], int(7)), r()))]),
+        ("case-binding-after-call", vec![Stmt::Expr(casev(variant_a(var("n")), vec![def("rr", r()), Stmt::Expr(add(mul(var("q"), int(10)), var("rr")))], int(7)))]),
+        ("case-binding-in-operand", vec![Stmt::Expr(casev(variant_a(h()), vec![Stmt::Expr(add(r(), var("q")))], int(7)))]),
+        ("case-scrutinee-calls", vec![Stmt::Expr(add(h(), casev(variant_a(r()), vec![Stmt::Expr(var("q"))], int(7))))]),
+        ("tuple-elements", vec![def("tt", Expr::Tuple(vec![h(), r()])), Stmt::Expr(add(Expr::Index(Box::new(var("tt")), 0), Expr::Index(Box::new(var("tt")), 1)))]),
+        ("tuple-index-inline", vec![Stmt::Expr(add(Expr::Index(Box::new(Expr::Tuple(vec![h(), int(1)])), 0), r()))]),
+        ("list-elements", vec![print_of(Expr::List(vec![h(), r()])), Stmt::Expr(h())]),
+        ("blob-fields", vec![def("bb", Expr::Blob("P".into(), vec![("x".into(), h()), ("y".into(), r())])), Stmt::Expr(add(pa("bb", "x"), pa("bb", "y")))]),
+        ("blob-field-read-then-call", vec![def("bb", Expr::Blob("P".into(), vec![("x".into(), h()), ("y".into(), int(0))])), Stmt::Expr(add(pa("bb", "x"), r()))]),
+        ("argument-slots", vec![Stmt::Expr(callv("sum2", vec![h(), r()]))]),
+        ("argument-slots-rev", vec![Stmt::Expr(callv("sum2", vec![r(), h()]))]),
+        ("and-operand", vec![Stmt::Expr(ifv(bin(BinOp::And, bin(BinOp::Gt, var("n"), int(0)), bin(BinOp::Ge, r(), int(0))), h(), int(5)))]),
+        ("or-operand", vec![Stmt::Expr(ifv(bin(BinOp::Or, bin(BinOp::Lt, var("n"), int(0)), bin(BinOp::Ge, r(), int(0))), add(h(), r()), int(5)))]),
+        ("and-value-held", vec![def("ok", bin(BinOp::And, bin(BinOp::Gt, var("n"), int(1)), bin(BinOp::Gt, r(), int(-1)))), def("rr", r()), Stmt::Expr(ifv(var("ok"), add(h(), var("rr")), var("rr")))]),
+        ("compound-assign", vec![def("x", h()), op_assign("x", BinOp::Add, r()), Stmt::Expr(var("x"))]),
+        ("field-compound-assign", vec![def("bb", Expr::Blob("P".into(), vec![("x".into(), h()), ("y".into(), int(0))])), fa("bb", "x", Some(BinOp::Add), r()), Stmt::Expr(pa("bb", "x"))]),
+        ("plain-assign", vec![def("x", int(0)), assign("x", add(h(), r())), Stmt::Expr(var("x"))]),
+        ("local-held", vec![def("x", h()), def("rr", r()), Stmt::Expr(add(var("x"), var("rr")))]),
+        ("closure-per-activation", vec![cdef("f", lam(vec![], RetAnn::Ty(Ty::Int), vec![Stmt::Expr(h())])), def("rr", r()), Stmt::Expr(add(callv("f", vec![]), var("rr")))]),
+        ("closure-mutates-own-local", vec![def("x", h()), cdef("f", lam(vec![], RetAnn::Void, vec![op_assign("x", BinOp::Add, int(1))])), def("rr", r()), Stmt::Expr(callv("f", vec![])), Stmt::Expr(add(var("x"), var("rr")))]),
+        ("loop-accumulate", vec![def("i", int(0)), def("acc", int(0)), Stmt::Loop(Some(bin(BinOp::Lt, var("i"), int(2))), vec![op_assign("acc", BinOp::Add, add(r(), mul(var("i"), var("n")))), op_assign("i", BinOp::Add, int(1))]), Stmt::Expr(var("acc"))]),
+        ("higher-order", vec![Stmt::Expr(add(h(), callv("apply", vec![var("rec"), n1(var("n"))])))]),
+        ("global-interplay", vec![op_assign("g", BinOp::Add, var("n")), def("rr", r()), Stmt::Expr(add(add(var("g"), h()), var("rr")))]),
+        ("neg-and-not", vec![Stmt::Expr(ifv(un(UnOp::Not, bin(BinOp::Lt, r(), int(0))), un(UnOp::Neg, bin(BinOp::Sub, un(UnOp::Neg, h()), r())), int(5)))]),
+        ("comparison-held", vec![Stmt::Expr(ifv(bin(BinOp::Lt, h(), add(r(), int(1000))), add(h(), int(1)), int(5)))]),
+        ("string-held", vec![def("st", add(s("<"), s(">"))), def("rr", r()), print_of(var("st")), Stmt::Expr(add(h(), var("rr")))]),
+        ("two-calls", vec![Stmt::Expr(add(add(r(), h()), r()))]),
+        ("early-ret-in-loop", vec![def("i", int(0)), Stmt::Loop(None, vec![op_assign("i", BinOp::Add, int(1)), if_s(bin(BinOp::Gt, var("i"), int(1)), vec![Stmt::Ret(Some(add(h(), r())))])]), Stmt::Expr(int(0))]),
+    ];
+    for (name, body) in bodies {
+        for depth in [1i64, 2, 3] {
+            for trace in [false, true] {
+                let mut b = vec![if_s(bin(BinOp::Le, var("n"), int(0)), vec![Stmt::Ret(Some(int(0)))])];
+                if trace {
+                    b.push(print_of(var("n")));
+                }
+                b.extend(body.iter().cloned());
+                let tops = vec![
+                    ext_print(),
+                    blob_p(),
+                    enum_e(),
+                    Top::Def { name: "g".into(), mutable: true, ty: None, value: int(0) },
+                    sum2.clone(),
+                    apply.clone(),
+                    top_fn("rec", vec![("n", Some(Ty::Int))], RetAnn::Ty(Ty::Int), b),
+                    start_fn(vec![print_of(callv("rec", vec![int(depth)])), print_of(var("g"))]),
+                ];
+                out.push((format!("recursion:{}", name), Program { tops }));
+            }
+        }
+    }
+    // mutual recursion through a mutable global function variable and a method re-entering through self
+    let tops = vec![
+        ext_print(),
+        Top::Blob { name: "R".into(), fields: vec![("go".into(), Ty::Fn(vec![Ty::Int], Box::new(Ty::Int)))] },
+        Top::Def { name: "hook".into(), mutable: true, ty: Some(Ty::Fn(vec![Ty::Int], Box::new(Ty::Int))), value: lam(vec![("q", Some(Ty::Int))], RetAnn::Ty(Ty::Int), vec![Stmt::Expr(var("q"))]) },
+        top_fn("even", vec![("n", Some(Ty::Int))], RetAnn::Ty(Ty::Int), vec![if_s(bin(BinOp::Le, var("n"), int(0)), vec![Stmt::Ret(Some(int(1)))]), Stmt::Expr(add(mul(var("n"), int(10)), callv("hook", vec![n1(var("n"))])))]),
+        top_fn("odd", vec![("n", Some(Ty::Int))], RetAnn::Ty(Ty::Int), vec![if_s(bin(BinOp::Le, var("n"), int(0)), vec![Stmt::Ret(Some(int(0)))]), Stmt::Expr(add(callv("even", vec![n1(var("n"))]), mul(var("n"), int(100))))]),
+        start_fn(vec![
+            assign("hook", var("odd")),
+            print_of(callv("even", vec![int(4)])),
+            def("rr", Expr::Blob("R".into(), vec![("go".into(), lam(vec![("n", Some(Ty::Int))], RetAnn::Ty(Ty::Int), vec![if_s(bin(BinOp::Le, var("n"), int(0)), vec![Stmt::Ret(Some(int(0)))]), Stmt::Expr(add(mul(var("n"), int(10)), call(pa("self", "go"), vec![n1(var("n"))])))]))])),
+            print_of(call(pa("rr", "go"), vec![int(3)])),
+        ]),
+    ];
+    out.push(("recursion:mutual-and-method".to_string(), Program { tops }));
+    let _ = raw;
+    let _: Option<Arc<FnLit>> = None;
+}
+
+pub fn all_programs(thorough: bool) -> Vec<(String, Program)> {
+    let mut out = Vec::new();
+    for f in loops_family(thorough) {
+        f.programs(&mut out);
+    }
+    closures_family(thorough).programs(&mut out);
+    blobs_family(thorough).programs(&mut out);
+    enums_family(thorough).programs(&mut out);
+    globals_family(thorough).programs(&mut out);
+    recursion_programs(&mut out);
+    out
 }
